@@ -128,7 +128,7 @@ def _history(draw):
         if draw(st.integers(0, 4)) == 0:
             runs[-1]["corrupt"] = {"shank": draw(st.integers(0, 3)), "pos": draw(st.sampled_from([0.0, 0.3, 0.55, 0.8, 0.999])),
                                    "col": draw(st.integers(0, 15))}
-    return {"mode": "history", "spec": spec, "cbin": draw(st.booleans()), "kind": kind, "content_seed": draw(st.integers(0, 2 ** 31)),
+    return {"debug_log": draw(st.sampled_from([False, False, False, True])), "mode": "history", "spec": spec, "cbin": draw(st.booleans()), "kind": kind, "content_seed": draw(st.integers(0, 2 ** 31)),
             "runs": runs, "stem": draw(st.sampled_from(np2.STEMS))}
 
 
@@ -369,6 +369,16 @@ class World:
 
 
 def run_case(case, ctx):
+    if case.get("debug_log"):
+        # process state: logging switched on at DEBUG level (logging.basicConfig(level=logging.DEBUG) in the calling script)
+        from vp.core import debug_logging
+        ctx.label("debug_logging_on")
+        with debug_logging():
+            return _run_case(case, ctx)
+    return _run_case(case, ctx)
+
+
+def _run_case(case, ctx):
     with rec.scratch_dir(ctx) as root:
         w = World(case, ctx, root)
         try:
